@@ -46,13 +46,13 @@ def optBool (j : Json) (k : String) : Option Bool := (j.getObjValAs? Bool k).toO
     the library's own verdict (`jti`) otherwise -/
 def jtiVerdict (j : Json) : Option Bool :=
   match optStr j "jtis", optBool j "jti" with
-  | some h, some _ => some (uuidParse (unhexStr h))
+  | some h, some _ => some (jtiOK Facts.C04.jtiFunction (unhexStr h))
   | _, v => v
 
 /-- the harness's library verdict disagrees with the model's grammar on this jti -/
 def jtiGrammarMismatch (j : Json) : Bool :=
   match optStr j "jtis", optBool j "jti" with
-  | some h, some v => uuidParse (unhexStr h) != v
+  | some h, some v => jtiOK Facts.C04.jtiFunction (unhexStr h) != v
   | _, _ => false
 
 def parseClaims (j : Json) : Claims :=
@@ -165,7 +165,7 @@ def step (st : St) (j : Json) : St × List String :=
       let keysOK := (jStrs j "okpaths").any (fun p => p.toList = c.keysPath)
       let conf := match configureOutcome Facts.C04.internalBinds c keysOK with | .error => "error" | _ => "ok"
       (st, [s!"type={hexStr c.authType} aud={hexStr c.audience} keys={hexStr c.keysPath} int={hexStr c.intAddr} pub={hexStr c.pubAddr} log={hexStr c.log} configure={conf}"])
-  | "uuid" => (st, [toString (uuidParse (unhexStr (jStr j "s")))])
+  | "uuid" => (st, [toString (uuidParse (unhexStr (jStr j "s"))) ++ " " ++ toString (uuidValidate (unhexStr (jStr j "s")))])
   | "configure" =>
     -- keys file states: ok / empty parse fine (an empty file gives zero keys), missing / garbage make New(FromFile) fail
     let fileOK := jStr j "b" == "ok" || jStr j "b" == "empty"
